@@ -6,6 +6,7 @@ import (
 	"sort"
 	"fmt"
 	"go/constant"
+	"go/token"
 	"go/types"
 	"math/big"
 	"strings"
@@ -640,6 +641,26 @@ func (vc *VC) evalTerm(env *Env, e CExpr) Term {
 				}
 			}
 		}
+		if t.Array {
+			// comprehension: a fresh array constant A with (forall p. A[p] == e(p)); the same body text (same heap
+			// versions) yields the same constant, so that states differing only in unrelated memory share it
+			if len(terms) != 1 {
+				vc.unsup("array comprehension takes one index variable")
+			}
+			bt := vc.evalTerm(env.withBound(names, terms), t.Body)
+			key := bt.Sort + "|" + strings.ReplaceAll(bt.S, terms[0].S, "?")
+			if vc.arrCache == nil {
+				vc.arrCache = map[string]string{}
+			}
+			as := arrSort(terms[0].Sort, bt.Sort)
+			if a, ok := vc.arrCache[key]; ok {
+				return Term{S: a, Sort: as}
+			}
+			a := vc.fresh("arr", as)
+			vc.emit(fmt.Sprintf("(assert (forall (%s) (! (= (select %s %s) %s) :pattern ((select %s %s)))))", strings.Join(decls, " "), a, terms[0].S, bt.S, a, terms[0].S))
+			vc.arrCache[key] = a
+			return Term{S: a, Sort: as}
+		}
 		body := vc.evalBool(env.withBound(names, terms), t.Body)
 		g := mkAnd(guards...)
 		if t.Forall {
@@ -941,6 +962,18 @@ func (vc *VC) evalCall(env *Env, t CCall) Term {
 		}
 		x := vc.evalTerm(env, t.Args[1])
 		return Term{S: x.S, Sort: SInt, T: types.NewPointer(tn)}
+	case "cast":
+		// cast("go type expression", e): the reference e viewed as a value of that (map, pointer) type
+		lit, ok := t.Args[0].(CLit)
+		if !ok || lit.Kind != "str" || len(t.Args) != 2 {
+			vc.unsup("cast(\"type\", expr) expected")
+		}
+		tv, err := types.Eval(vc.eng.fset, env.typesPkg(), token.NoPos, lit.Val)
+		if err != nil || !tv.IsType() {
+			vc.unsup("cast: %q is not a type here", lit.Val)
+		}
+		x := vc.evalTerm(env, t.Args[1])
+		return Term{S: x.S, Sort: SInt, T: tv.Type}
 	case "heap":
 		// heap(Type.field): the whole field map (object reference -> value) in the current state
 		cf, ok := t.Args[0].(CField)
@@ -1003,6 +1036,10 @@ func (vc *VC) evalCall(env *Env, t CCall) Term {
 				}
 			}
 			return ""
+		}
+		if lit, ok := t.Args[0].(CLit); ok && lit.Kind == "str" {
+			// typetag("map[string]struct{}"): an unnamed type, spelled as go/types prints it
+			return tInt(fmt.Sprint(vc.eng.typeTagNamed(lit.Val)))
 		}
 		name := tyName(t.Args[0])
 		tt := env.lookupType(name)
@@ -1200,7 +1237,7 @@ func substCExpr(e CExpr, sub map[string]CExpr) CExpr {
 			inner[v.Name] = CIdent{nn}
 			vars = append(vars, CVar{nn, v.Type})
 		}
-		return CQuant{t.Forall, vars, substCExpr(t.Body, inner)}
+		return CQuant{Forall: t.Forall, Vars: vars, Body: substCExpr(t.Body, inner), Array: t.Array}
 	}
 	return e
 }
